@@ -3,6 +3,7 @@ package props
 import (
 	"bytes"
 	"encoding/binary"
+	"encoding/hex"
 	"encoding/json"
 	"fmt"
 	"os"
@@ -13,6 +14,8 @@ import (
 	"time"
 
 	cose "github.com/veraison/go-cose"
+
+	"verifharness/bridge"
 
 	rc "verifharness/refcbor"
 	"verifharness/refcose"
@@ -160,6 +163,45 @@ func checkC06Concurrent(c c06ConcCase) error {
 	}
 	close(start)
 	wg.Wait()
+	// second phase: one decoded value is handed to all goroutines at once (a key cache, a message fanned out to
+	// several checkers): re-encoding and converting it are reads
+	shortKey := rc.Encode(rc.Map(rc.E(rc.Int(1), rc.Int(2)), rc.E(rc.Int(-1), rc.Int(1)),
+		rc.E(rc.Int(-2), rc.Bytes(bytes.Repeat([]byte{7}, 31))), rc.E(rc.Int(-3), rc.Bytes(bytes.Repeat([]byte{9}, 30)))), nil)
+	msgWire, _ := hex.DecodeString("d28443a10127a1044161417043010203")
+	for r := 0; r < 300 && bad == ""; r++ {
+		var k cose.Key
+		if err := k.UnmarshalCBOR(shortKey); err != nil {
+			break
+		}
+		var m cose.Sign1Message
+		if err := m.UnmarshalCBOR(msgWire); err != nil {
+			break
+		}
+		var wg2 sync.WaitGroup
+		start2 := make(chan struct{})
+		for g := 0; g < c.G; g++ {
+			wg2.Add(1)
+			go func() {
+				defer wg2.Done()
+				defer func() {
+					if r := recover(); r != nil {
+						mu.Lock()
+						bad = fmt.Sprint(r)
+						mu.Unlock()
+					}
+				}()
+				<-start2
+				k.MarshalCBOR()
+				k.PublicKey()
+				k.Verifier()
+				m.MarshalCBOR()
+				m.Verify(nil, &bridge.SpyVerifier{Alg: cose.AlgorithmEdDSA})
+			}()
+		}
+		close(start2)
+		wg2.Wait()
+		stats.Class("one-decoded-value-used-by-all-goroutines")
+	}
 	clearInflightC06()
 	if bad != "" {
 		return finding("panic/concurrent-decoding", "a decoder panicked while other goroutines were decoding: %s", bad)
@@ -360,11 +402,35 @@ func TestC06_DuplicateLabels(t *testing.T) {
 // needs a fraction of a second; the deadline is two orders of magnitude above that, so that only a change in
 // the growth (a lookup that became a scan) can exceed it.
 type c06CritCase struct {
-	N    int          `json:"n"`
-	Kind refcose.Kind `json:"kind"`
+	Nested int          `json:"nested,omitempty"`
+	N      int          `json:"n"`
+	Kind   refcose.Kind `json:"kind"`
 }
 
 func checkC06LargeCrit(c c06CritCase) error {
+	if c.Nested > 0 {
+		// countersignatures nested in countersignatures, c.Nested levels deep (a few bytes per level)
+		inner := []byte{0x83, 0x40, 0xa0, 0x41, 0x01}
+		for i := 0; i < c.Nested; i++ {
+			w := append([]byte{0x83, 0x40, 0xa1, 0x0b}, inner...)
+			inner = append(w, 0x41, 0x01)
+		}
+		w := append(append([]byte{0xd2, 0x84, 0x43, 0xa1, 0x01, 0x26, 0xa1, 0x0b}, inner...), 0x41, 0x70, 0x41, 0x01)
+		done := make(chan error, 1)
+		start := time.Now()
+		go func() {
+			_, err := decodeAny(refcose.KSign1, w)
+			done <- err
+		}()
+		select {
+		case <-done:
+		case <-time.After(40 * time.Second):
+			return finding("not-prompt/deep-nesting", "decoding a COSE_Sign1 of %d bytes with %d nested countersignatures has not returned after 40 s (the unchanged library answers at once)", len(w), c.Nested)
+		}
+		stats.Class("deep-nesting")
+		stats.Note(fmt.Sprintf("deep nesting n=%d", c.Nested), fmt.Sprintf("%d bytes answered in %v", len(w), time.Since(start).Round(time.Millisecond)))
+		return nil
+	}
 	m := rc.Map(rc.E(rc.Int(1), rc.Int(-7)))
 	var crit []rc.Val
 	for i := 0; i < c.N; i++ {
@@ -417,6 +483,12 @@ func TestC06_LargeCrit(t *testing.T) {
 			stats.NTBytes([]byte(fmt.Sprint(k, cnt)))
 			judge(t, "c06crit", c06CritCase{N: cnt, Kind: k}, checkC06LargeCrit)
 		}
+	}
+	for _, depth := range []int{14, 15, 16, 40, 3000, 20000} {
+		n++
+		stats.Eval()
+		stats.NTBytes([]byte(fmt.Sprint("nested", depth)))
+		judge(t, "c06crit", c06CritCase{Nested: depth}, checkC06LargeCrit)
 	}
 	stats.ExhaustivePart("large crit lists", n)
 }
